@@ -84,6 +84,23 @@ class Canon(object):
                 a, b = self.term(t.args[1]), self.term(t.args[2])
                 return ev.mk_ite(st, c, a, b)
             args = [self.term(a) if isinstance(a, Term) else a for a in t.args]
+            if t.op == "div" and isinstance(args[1], P) and args[1].is_const() and args[1].const_value() != 0:
+                c = args[1].const_value()
+                num = args[0] if isinstance(args[0], P) else ev.to_poly(None, args[0], None)
+                return P(dict((m, x / c) for m, x in num.terms.items()), T.kind_join(num.kind, args[1].kind))
+            if t.op == "ind":
+                d = None
+                try:
+                    d = ev.decide(st, args[0])
+                except Dead:
+                    d = None
+                if d is not None:
+                    return P.const(1 if d else 0, "int")
+                c = args[0]
+                nc = mk_not(c)
+                if not (isinstance(nc, BoolOp) and nc.op == "not") and nc.sortkey() < c.sortkey():
+                    return T.p_add(P.const(1, "int"), P.atom(App("ind", (nc,)), "int"), -1)
+                return App("ind", (c,))
             if t.op in ("min", "max") and "ordered" not in t.attrs:
                 ps = [a for a in args]
                 if all(isinstance(p, P) and p.is_const() for p in ps):
@@ -122,6 +139,20 @@ class SpecBuilder(object):
             else:
                 q = Fraction(str(v))
                 table[r] = Dec(q) if kind == "dec" else Flt(q)
+        f = fo.simplify(Fin(sl, table))
+        return SE(self, self.ev.to_poly(self.st, f, None))
+
+    def table_leaf(self, slots, fn, kind="flt"):
+        """Leaf whose rows may be NaN (fn returns None for NaN)."""
+        from .consteval import NAN
+
+        fo = self.st.folder()
+        slots = tuple(sorted(slots))
+        sl, rows = fo.rows(slots)
+        table = {}
+        for r in rows:
+            v = fn(*[r[sl.index(s)] for s in slots])
+            table[r] = NAN if v is None else (Dec(Fraction(str(v))) if kind == "dec" else Flt(Fraction(str(v))))
         f = fo.simplify(Fin(sl, table))
         return SE(self, self.ev.to_poly(self.st, f, None))
 
